@@ -78,6 +78,21 @@ type envParser struct {
 	// PEP 508.
 	input string
 	pos   int // The current position in input.
+	depth int // The current depth of the recursive descent.
+}
+
+// maxMarkerDepth bounds the depth of the parse tree, that is the nesting of
+// parentheses plus the length of chains of "and" and "or", so that a hostile
+// marker cannot exhaust the stack of the recursive-descent parser or of Eval.
+const maxMarkerDepth = 1000
+
+// descend records one more level of recursion and reports an error if the
+// marker is nested too deeply. The caller must decrement depth when done.
+func (p *envParser) descend() error {
+	if p.depth++; p.depth > maxMarkerDepth {
+		return fmt.Errorf("marker nested more than %d deep", maxMarkerDepth)
+	}
+	return nil
 }
 
 // skipWsp skips zero or more characters of whitespace. By PEP 508, allowed
@@ -146,7 +161,11 @@ func (p *envParser) parseMarkerOr() (marker, error) {
 	if !p.accept("or") {
 		return l, nil
 	}
+	if err := p.descend(); err != nil {
+		return nil, err
+	}
 	r, err := p.parseMarkerOr()
+	p.depth--
 	if err != nil {
 		return nil, err
 	}
@@ -166,7 +185,11 @@ func (p *envParser) parseMarkerAnd() (marker, error) {
 	if !p.accept("and") {
 		return l, nil
 	}
+	if err := p.descend(); err != nil {
+		return nil, err
+	}
 	r, err := p.parseMarkerAnd()
+	p.depth--
 	if err != nil {
 		return nil, err
 	}
@@ -271,7 +294,11 @@ func (p *envParser) parseMarkerExpr() (marker, error) {
 	// cases and we can skip it here.
 	p.skipWsp()
 	if p.accept("(") {
+		if err := p.descend(); err != nil {
+			return nil, err
+		}
 		m, err := p.parseMarkerOr()
+		p.depth--
 		if err != nil {
 			return nil, err
 		}
